@@ -59,3 +59,6 @@ func fnv(s string) string {
 	}
 	return strconv.FormatUint(h, 16)
 }
+
+// Pick2Cmd picks one command line.
+func (r *Rng) Pick2Cmd(xs [][]string) []string { return xs[r.Intn(len(xs))] }
